@@ -12,11 +12,13 @@ import os
 import shutil
 import vcommon as vc
 
-RULE = ("case = (generated HDF4 file, option set 1, option set 2).  Files: 0-3 nested vgroups with class/attributes/"
+RULE = ("case = (generated HDF4 file, option set 1, option set 2).  Every number type (datasets, images, attributes, fields, "
+        "scales) carries DFNT_LITEND or DFNT_NATIVE now and then; SDS and images are vgroup members under any tag "
+        "vgroup_insert accepts (regenerated tables).  Files: 0-3 nested vgroups with class/attributes/"
         "annotations, 2-7 SDS (10 number types + little-endian variants, rank 1-4, unlimited with 0-5 records, "
         "never-written, partly written with fill value, chunked / RLE / skipping-Huffman / deflate / chunked+compressed / "
         "n-bit inputs, attributes, named and shared dimensions with scales and attributes, data labels/descriptions), "
-        "0-3 GR images (1/3/4 components, all interlaces, palettes, chunked/compressed), 0-3 Vdatas (1-3 fields, "
+        "0-3 GR images (1/3/4 components, all interlaces, palettes, chunked/compressed, labels/descriptions under RIG or RI), 0-3 Vdatas (1-3 fields, "
         "attributes on vdata and fields, annotations), global SD/GR attributes, file labels/descriptions, lone palettes. "
         "Options: -t none/selected lists/'*' with NONE, RLE, HUFF n, GZIP n; -c none/selected/'*' with shapes or NONE; "
         "-m absent, in {0,1,100,1024,2000,100000} or at / one below / one above the byte size of an object; given on the command line or through an option file -f; a "
